@@ -25,6 +25,8 @@ CHECKS = {
          TB + "Optimality against all real competitor vectors is decided through stationarity + non-zero determinant, not by enumerating competitors.", TECH, "4/C05"),
  "C06": ("TLC explores the planted-truth generator Hydro.tla (Recede / Storm / Drizzle / Gap on a master recession lattice with constant specific yield) and checks on every behaviour that the classifier's definitions (Classify.tla) recover exactly the planted storms, depths and recessions; finished behaviours (exhaustive to depth 4, simulated to depth 12-30, three truths) are written as text files and driven through load, classify, set-zeta-grid, recession, rise via the CLI entry point at three time steps, grid steps and zones; both master curves must equal the truth up to origin and every aligned piece must coincide with the master.",
          TB + "Judged when every level-richest overlap component of the planted pieces has >= 2 pieces (otherwise the commands have nothing to align).", TECH, "4/C06"),
+ "C07": ("Abstract records come from TLC (MCClassify records with increments EXACTLY at threshold x step; Hydro.tla behaviours); each is presented at three time origins between 1975 and 2037 shifted by whole steps and in different fixed-offset zones, with 20 / 30 / 60 minute steps, and run through the real load + classify (+ grid, recession, rise); the origin-free projections (flags, intervals, matching, both master curves and member offsets, floats as hex strings) are judged equal by TLC (TraceShift.tla).",
+         TB + "Value-level conformance to Classify.tla is asserted only for binary-fraction steps (C01-C04); here only the relation between runs is judged.", "TLA+ trace validation of pairs of real executions (metamorphic relation judged by TLC) over TLC-enumerated records", "4/C07"),
  "C08": ("TLC explores collections including disconnected overlap graphs with re-ordering and axis-shift as actions: the code-shaped component merge equals the declarative components, only and all of the main body is placed, the result is unchanged by the actions and by the pinned piece; every reachable presentation is replayed into the real get_series_time_offsets and must give the specification's members, relative offsets and master curve.",
          TB + "Collections whose level-richest component is not unique or is a single piece are not judged (the code raises ValueError there; whether that violates C08 is ambiguous).", TECH, "4/C08"),
  "C12": ("TLC enumerates every series of 2..5 samples on a half-integer lattice with one-ulp displacement classes and irregular abscissae, checks bracketing / on-the-line / once-per-pair / monotone-once as invariants of Regrid.tla and emits the exact report; every series is presented to the real regrid() and build_head_mapping() at dyadic and non-dyadic steps and at small and UNIX-epoch abscissae: ids must match exactly in order, positions within 1e-9 (1e-5 s at epoch scale).",
